@@ -55,3 +55,54 @@ pub fn get_str_or<'a>(v: &'a Value, k: &str, d: &'a str) -> &'a str {
 pub fn get_bool_or(v: &Value, k: &str, d: bool) -> bool {
     v.get(k).and_then(|x| x.as_bool()).unwrap_or(d)
 }
+
+/// JSON projection of a state dump (aquatic_common::verif::TorrentDump), with
+/// concrete values mapped back to the specification's identifiers.
+/// [[fam, h, kind, nseed, strong, [[key, seeder, deadline, pid], ...]], ...]
+pub fn dump_json(dump: &[aquatic_common::verif::TorrentDump]) -> Value {
+    use serde_json::json;
+    let mut out = Vec::new();
+    for t in dump {
+        let fam = if t.ipv4 { 4 } else { 6 };
+        let h = ids::info_hash_rev(&t.info_hash).map(|x| x as i64).unwrap_or(-1);
+        let peers: Vec<Value> = t
+            .peers
+            .iter()
+            .map(|p| {
+                let key = match (p.addr, p.peer_id) {
+                    (Some((ip, port)), _) => json!(ids::key_name(ip, port)),
+                    (None, Some(pid)) => json!(ids::peer_id_rev(&pid).map(|x| x as i64).unwrap_or(-1)),
+                    _ => json!("?"),
+                };
+                let pid = p
+                    .peer_id
+                    .and_then(|b| ids::peer_id_rev(&b))
+                    .map(|x| x as i64)
+                    .unwrap_or(0);
+                let mut e = vec![key, json!(p.seeder), json!(p.valid_until), json!(pid)];
+                if let Some((consumer, conn)) = p.owner {
+                    e.push(json!([consumer, conn]));
+                    e.push(json!(p
+                        .expecting_answers
+                        .iter()
+                        .map(|(from, offer, until)| json!([
+                            ids::peer_id_rev(from).map(|x| x as i64).unwrap_or(-1),
+                            ids::peer_id_rev(offer).map(|x| x as i64).unwrap_or(-1),
+                            until
+                        ]))
+                        .collect::<Vec<_>>()));
+                }
+                json!(e)
+            })
+            .collect();
+        out.push(json!([
+            fam,
+            h,
+            if t.large { "large" } else { "small" },
+            t.num_seeders.map(|x| x as i64).unwrap_or(-1),
+            t.strong_count.map(|x| x as i64).unwrap_or(-1),
+            peers
+        ]));
+    }
+    json!(out)
+}
